@@ -453,3 +453,17 @@ Proof.
   split; [split; [reflexivity|eexists; split; [vm_compute; reflexivity|cbn [pk_chunks]; discriminate]]|].
   split; (split; [reflexivity|eexists; vm_compute; reflexivity]).
 Qed.
+
+(* [pad_packet] applied to an unpadded image of the independent encoder is the encoder's image of the same
+   packet with padding: the statement above therefore covers every (image, padding) pair the encoder defines *)
+Theorem pad_packet_image pt cnt n (body : bytes) p :
+  4 + length body = n -> legal_pad p ->
+  pad_packet (image pt 0 cnt n body) p = image pt (N.of_nat p) cnt (n + p) body.
+Proof.
+  intros Hn [Hp Hm]. unfold image, rfc_header, rfc_trailer, pad_packet.
+  replace (0 <? 0)%N with false by reflexivity. replace (0 <? N.of_nat p)%N with true by (symmetry; apply N.ltb_lt; lia).
+  unfold be16. cbn [app]. rewrite app_nil_r.
+  assert (Hl : length ((128 + 0 + cnt)%N :: pt :: (N.of_nat (n / 4 - 1) / 256 mod 256)%N :: (N.of_nat (n / 4 - 1) mod 256)%N :: body) = n)
+    by (cbn [length]; lia).
+  rewrite Hl. rewrite Nat2N.id. replace (128 + 0 + cnt + 32)%N with (128 + 32 + cnt)%N by lia. reflexivity.
+Qed.
